@@ -39,7 +39,13 @@ type fn struct {
 	big bool
 	// bigFloat: the function uses (or calls a function that uses) big.Float values (bigfloat.go):
 	// placed in <File>BigFloat modules importing Go/BigFloat.lean. Implies big.
-	bigFloat       bool
+	bigFloat bool
+	// fmtL: the function uses (or calls a function that uses) fmt.State / fmt.ScanState values or
+	// another construct of the fmt layer (fmtstate.go): placed in <File>Fmt modules importing
+	// Go/Fmt.lean.
+	fmtL           bool
+	fmtOK          map[*ast.Ident]bool   // mentions of state variables admitted by analyseFmt
+	okFuncLit      map[*ast.FuncLit]bool // function literals admitted by analyseFmt (closureCheck)
 	bigInf         *bigInfo
 	bigStoredParam []int    // indices of *big.Int / *big.Rat parameters the function stores into
 	unmodelled     []string // foreign calls replaced by `throw (Go.Panic.unmodelled …)`, in source order
@@ -53,10 +59,13 @@ type fn struct {
 }
 
 type gvar struct {
-	obj   *types.Var
-	spec  *ast.ValueSpec
-	idx   int
-	file  string
+	obj  *types.Var
+	spec *ast.ValueSpec
+	idx  int
+	file string
+	// late: the initialiser needs a construct of the fmt layer ([]byte{…}): the variable is placed in
+	// the <File>Fmt module (fifth pass), not in the module of its file
+	late  bool
 	skip  string
 	lines []string
 	deps  map[*types.Var]bool
@@ -158,6 +167,10 @@ func (t *tr) collect() {
 					p := sig.Params().At(k)
 					// *big.Int / *big.Rat parameters are values, not in-out arguments (big.go)
 					if _, ok := p.Type().(*types.Pointer); ok && !isBigPtr(p.Type()) {
+						F.inout = append(F.inout, p)
+					}
+					// a fmt.State / fmt.ScanState parameter is threaded like an in-out argument (fmtstate.go)
+					if _, ok := fmtIface(p.Type()); ok {
 						F.inout = append(F.inout, p)
 					}
 				}
@@ -349,6 +362,9 @@ func (t *tr) analyseFn(F *fn) {
 		if strings.Contains(lt, "Go.BigFloat") {
 			F.bigFloat = true
 		}
+		if strings.Contains(lt, "Go.FmtState") || strings.Contains(lt, "Go.ScanState") {
+			F.fmtL = true
+		}
 	}
 	if r := sig.Recv(); r != nil {
 		checkType(r.Type(), F.decl)
@@ -358,8 +374,14 @@ func (t *tr) analyseFn(F *fn) {
 	}
 	for k := 0; k < sig.Results().Len(); k++ {
 		checkType(sig.Results().At(k).Type(), F.decl)
+		if _, is := fmtIface(sig.Results().At(k).Type()); is {
+			unsupported(F.decl, "fmt.State / fmt.ScanState result")
+		}
 	}
 	ast.Inspect(F.decl.Body, func(n ast.Node) bool {
+		if handled, descend := t.analyseFmt(F, n, unsupported); handled {
+			return descend
+		}
 		if handled, descend := t.analyseBig(F, n, unsupported); handled {
 			return descend
 		}
@@ -601,6 +623,7 @@ func (t *tr) analyse() {
 			tx := F.text
 			bg := F.big
 			bf := F.bigFloat
+			fl := F.fmtL
 			for c := range F.callees {
 				C := t.funcs[c]
 				m = m || C.monadic
@@ -608,10 +631,11 @@ func (t *tr) analyse() {
 				tx = tx || C.text
 				bg = bg || C.big
 				bf = bf || C.bigFloat
+				fl = fl || C.fmtL
 			}
 			bg = bg || bf
-			if m != F.monadic || u != F.usesG || tx != F.text || bg != F.big || bf != F.bigFloat {
-				F.monadic, F.usesG, F.text, F.big, F.bigFloat = m, u, tx, bg, bf
+			if m != F.monadic || u != F.usesG || tx != F.text || bg != F.big || bf != F.bigFloat || fl != F.fmtL {
+				F.monadic, F.usesG, F.text, F.big, F.bigFloat, F.fmtL = m, u, tx, bg, bf, fl
 				changed = true
 			}
 		}
@@ -622,6 +646,9 @@ func (t *tr) analyse() {
 
 func leanTypeE(t types.Type) (string, error) {
 	if s, ok := bigLeanType(t); ok {
+		return s, nil
+	}
+	if s, ok := fmtLeanType(t); ok {
 		return s, nil
 	}
 	switch u := t.(type) {
@@ -644,6 +671,10 @@ func leanTypeE(t types.Type) (string, error) {
 				// math/big values live in variables only (big.go): Types.lean does not import Go/Big.lean
 				if ft := st.Field(i).Type(); isBigPtr(ft) || isBigWords(ft) {
 					return "", fmt.Errorf("struct %s with a math/big field", u.Obj().Name())
+				}
+				// fmt states live in variables only (fmtstate.go)
+				if _, is := fmtIface(st.Field(i).Type()); is {
+					return "", fmt.Errorf("struct %s with a fmt.State / fmt.ScanState field", u.Obj().Name())
 				}
 			}
 			return u.Obj().Name(), nil
